@@ -309,7 +309,7 @@ class Ctx:
                 continue
             if "input_gen" in w:          # a large input described instead of stored
                 g = w["input_gen"]
-                w = dict(w, input=g["repeat"] * g["times"] + g.get("then", ""))
+                w = dict(w, input=g.get("head", "") + g["repeat"] * g["times"] + g.get("then", ""))
             arg = w.get("args", "") + (" " if w.get("args") else "") + hx(w["input"]) if "input" in w and "input_hex" not in w else w.get("args", "") + (" " if w.get("args") else "") + w.get("input_hex", "")
             try:
                 out = self.run_impl(w["cmd"], [arg.strip()], timeout=w.get("timeout", 120), isolate=bool(w.get("isolate")))[0]
